@@ -5,3 +5,4 @@ import Dm.Props.C04
 #print axioms Dm.Props.C04.implicit_bounds
 #print axioms Dm.Props.C04.containsGenerics_iff_mentions
 #print axioms Dm.Props.C04.no_params_no_generics
+#print axioms Dm.Props.C04.user_bounds_always_kept
